@@ -54,6 +54,16 @@ MonitorErrors(r) ==
     IN (IF r.result \in {"panic", "hang", "budget"} THEN {<<"NotTotal", r.result>>} ELSE {})
        \cup (IF r.result = "ok" /\ waits /\ ~anyFall /\ \E i \in mem : r.al_after[i] # TargetCode(c.target)
              THEN {<<"OkButNotInState", [i \in 1..n |-> r.al_after[i]], c.target>>} ELSE {})
+       \* "at the moment it was checked": the call succeeds on one pass over the group - the last |group| status reads
+       \* before it returned are one read of every member, each answering the requested state
+       \cup (IF r.result = "ok" /\ waits /\ "al_reads_tail" \in DOMAIN r
+             THEN LET t == r.al_reads_tail
+                      m == Cardinality(mem)
+                      last == IF Len(t) >= m THEN SubSeq(t, Len(t) - m + 1, Len(t)) ELSE t
+                  IN IF Len(t) < m \/ {last[j][1] + 1 : j \in 1..Len(last)} # mem
+                        \/ \E j \in 1..Len(last) : last[j][2] % 16 # TargetCode(c.target)
+                     THEN {<<"SuccessNotFromOnePass", last, TargetCode(c.target)>>} ELSE {}
+             ELSE {})
        \cup (IF waits /\ anyBad /\ r.result = "ok" THEN {<<"BadDeviceButOk">>} ELSE {})
        \cup (IF r.result # "ok" /\ r.result \notin {"panic", "hang", "budget"}
                 /\ r.elapsed_us > 3 * (c.transition_timeout_ms * 1000 + 5000)
@@ -84,7 +94,7 @@ TInit ==
     \E i \in 1..Len(Rec) :
         /\ ri = i
         /\ IF SingleStage(Rec[i]) /\ Len(Rec[i].case.devices) = NDev /\ MemberSet(Rec[i]) = Members
-              /\ ((Rec[i].case.frame_data - 16) \div 14) = PerFrame
+              /\ ((Rec[i].case.frame_data + 12) \div 14) = PerFrame
            THEN /\ script = [d \in Devs |-> ScriptOf(Rec[i].case.scripts[d])]
                 /\ pc = "request"
            ELSE /\ script = [d \in Devs |-> [after |-> 0, refuse |-> FALSE, stall |-> FALSE, fallAfter |-> 0]]
